@@ -65,7 +65,17 @@ class SubGraph:
                 if d not in seen:
                     seen.add(d)
                     todo.append(d)
-        self.edges = [e for e in edges if e[0] in seen]
+        # canonical edge order (TLC's dump order and state ids change from run to run): the tour, and hence
+        # the sample of behaviours replayed for a given VERIF_SEED, must not depend on them
+        keys = g.__dict__.setdefault("_c20_keys", {})
+
+        def skey(sid):
+            if sid not in keys:
+                keys[sid] = repr(sorted(g.states[sid].items()))
+            return keys[sid]
+
+        self.init = sorted(self.init, key=skey)
+        self.edges = sorted((e for e in edges if e[0] in seen), key=lambda e: (skey(e[0]), e[2], repr(e[3])))
         self.out = {}
         for k, (s, d, a, args) in enumerate(self.edges):
             self.out.setdefault(s, []).append(k)
@@ -106,6 +116,7 @@ def with_method(g, path, how):
 
 def run(ck: Check):
     rng = random.Random(ck.seed)
+    ck.max_report = 12
     t_start = time.time()
 
     # ---- 1. the invariants are not vacuous: a projection that shares / drops one attribute is refuted
@@ -235,7 +246,7 @@ def run(ck: Check):
                     confs = ["stateful"]
                 elif e.adapter == "problem":
                     confs = ["db"]
-                elif e.adapter in ("function", "space"):
+                elif e.adapter in ("function", "space") or e.caches == ("none",):
                     confs = ["nocache"]
                 elif e.jac_in_run:
                     confs = ["jacinrun"] + (["jacinrun-hdf"] if T else [])
